@@ -964,6 +964,396 @@ def r8_parse_header_fast_path(run):
                   where=f.loc(c), runtime_witness='Content-Disposition: form-data; name="f"; filename="backup;2024-01-01.tar.gz" -> filename \'"backup\'')
 
 
+# ---------------------------------------------------------------------------
+# R10 name / filename are exactly the parsed Content-Disposition parameters
+# ---------------------------------------------------------------------------
+
+PARSE_HEADER = 'falcon.util.mediatypes.parse_header'
+CD_HEADER = b'content-disposition'
+_UTF8 = ('utf-8', 'utf8', 'utf_8', 'u8')
+# accessor -> Content-Disposition parameter it reports (RFC 7578 section 4.2); extended = RFC 5987 `<param>*` form is honoured
+_PARAM_ACCESSORS = (('name', 'name', False), ('filename', 'filename', True))
+# the one documented decoding of a parameter value (filename* only): frozen shape, see _rfc5987_shape
+_EXTENDED_DECODING = "unquote_to_bytes(<group 2>).decode(<group 1>) of <compiled regex>.match(params.get('<param>*', <str>)), on the branch where it matched"
+
+
+class _ExactParam:
+    """Where does the value an accessor returns come from?  Flow-insensitive def-use inside the accessor: returned
+    attribute -> its stores in the accessor -> locals -> terminal expressions; each terminal must be the bare parameter
+    read (or the tabled RFC 5987 decoding)."""
+
+    def __init__(self, run, f: Func, cls, key: str, extended: bool):
+        self.run, self.p, self.f, self.cls, self.key, self.extended = run, run.project, f, cls, key, extended
+        from .c13_helpers import Defs
+        self.Defs = Defs
+        self.defs = Defs(f)
+        self.records: List[tuple] = []       # (ok, what, func, construct, runtime witness)
+        self.parsers: List[str] = []
+
+    # ------------------------------------------------------------ def-use
+    def stores(self, f: Func, attr: str) -> List[ast.AST]:
+        out, direct = [], set()
+        for n in walk_no_nested(f.node):
+            if isinstance(n, ast.Assign):
+                for t in n.targets:
+                    if attr_chain(t) == ('self', attr):
+                        out.append(n.value)
+                        direct.add(id(t))
+            elif isinstance(n, ast.AnnAssign) and attr_chain(n.target) == ('self', attr):
+                direct.add(id(n.target))
+                if n.value is not None:
+                    out.append(n.value)
+        for n in walk_no_nested(f.node):
+            if isinstance(n, ast.Attribute) and isinstance(n.ctx, (ast.Store, ast.Del)) and attr_chain(n) == ('self', attr) and id(n) not in direct:
+                raise UnknownIdiom('%s: `self.%s` is bound by a construct the rule does not read' % (f.qual, attr))
+        return out
+
+    def terminals(self, e, f: Func, defs, seen=()) -> List[ast.AST]:
+        e = strip_await(e)
+        ch = attr_chain(e)
+        if ch is not None and len(ch) == 2 and ch[0] == 'self':
+            if ch in seen:
+                return []
+            st = self.stores(f, ch[1])
+            if not st:
+                raise UnknownIdiom('%s: returns / reads self.%s, which it never stores' % (f.qual, ch[1]))
+            return [t for v in st for t in self.terminals(v, f, defs, seen + (ch,))]
+        if isinstance(e, ast.Name) and e.id in defs.defs and e.id not in defs.params:
+            if ('n', e.id) in seen:
+                return []
+            out = []
+            for d in defs.defs[e.id]:
+                if d[0] != 'assign':
+                    return [e]                  # bound by unpacking / a loop / ...: a terminal of its own
+                out += self.terminals(d[1], f, defs, seen + (('n', e.id),))
+            return out
+        return [e]
+
+    # --------------------------------------------- the parameter dictionary
+    def is_cd_value(self, e, f: Func, defs, depth=0) -> bool:
+        """`e` is the (type, params) pair parse_header returned for the part's Content-Disposition."""
+        e = strip_await(e)
+        if depth > 6:
+            return False
+        ch = attr_chain(e)
+        if ch is not None and len(ch) == 2 and ch[0] == 'self':
+            return self.cd_attr(ch[1])
+        if isinstance(e, ast.Name) and e.id not in defs.params:
+            ds = defs.defs.get(e.id, [])
+            return bool(ds) and all(d[0] == 'assign' and self.is_cd_value(d[1], f, defs, depth + 1) for d in ds)
+        if isinstance(e, ast.Call):
+            return self.cd_call(e, f)
+        return False
+
+    def cd_call(self, call: ast.Call, f: Func) -> bool:
+        if not (isinstance(call.func, ast.Attribute) and attr_chain(call.func.value) == ('self',) and not call.args and not call.keywords):
+            t = self.p.callee(f, call)
+            return isinstance(t, Func) and t.qual == PARSE_HEADER and self.parse_header_call(call, f, self.Defs(f))
+        h = self.p.lookup_method(self.cls.qual, call.func.attr)
+        if h is None:
+            return False
+        return self.cd_parser(h)
+
+    def cd_attr(self, attr: str) -> bool:
+        """Every store of self.<attr> in the class hierarchy is None or the parsed Content-Disposition."""
+        key = (self.cls.qual, attr)
+        memo = self.__dict__.setdefault('_memo_attr', {})
+        if key in memo:
+            return memo[key]
+        memo[key] = True        # (cycle guard)
+        n, ok = 0, True
+        for cq in self.p.mro(self.cls.qual):
+            c = self.p.classes.get(cq)
+            if c is None:
+                continue
+            for m in c.methods.values():
+                if self.p.lookup_method(self.cls.qual, m.name) is not m:
+                    continue        # overridden: not an effective member
+                for v in self.stores(m, attr):
+                    if isinstance(v, ast.Constant) and v.value is None:
+                        continue
+                    n += 1
+                    mdefs = self.Defs(m)
+                    good = self.is_cd_value(v, m, mdefs, 1) and attr_chain(strip_await(v)) != ('self', attr)
+                    if not good:
+                        wraps = any(isinstance(x, ast.Call) and x is not v and self._safe_cd_call(x, m) for x in ast.walk(v))
+                        if not wraps:
+                            raise UnknownIdiom('%s: `self.%s = %s` is not recognisably the parsed Content-Disposition header' % (m.qual, attr, short(v)))
+                        self.records.append((False, 'the cached Content-Disposition is exactly what parse_header returned for the header '
+                                             '(nothing rewrites the parameters in between)', m, v,
+                                             'Content-Disposition: form-data; name="discount%22" comes back with an altered name / filename'))
+                        ok = False
+        if n == 0:
+            ok = False
+        memo[key] = ok
+        return ok
+
+    def _safe_cd_call(self, call, f) -> bool:
+        try:
+            return self.cd_call(call, f)
+        except UnknownIdiom:
+            return False
+
+    def cd_parser(self, h: Func) -> bool:
+        """`h` returns, on every return, parse_header(<Content-Disposition header value>.decode(<UTF-8>))."""
+        memo = self.__dict__.setdefault('_memo_parser', {})
+        if h.qual in memo:
+            return memo[h.qual]
+        memo[h.qual] = False
+        hdefs = self.Defs(h)
+        rets = [n for n in walk_no_nested(h.node) if isinstance(n, ast.Return) and n.value is not None]
+        if not rets:
+            return False
+        ok = True
+        for r in rets:
+            for t in self.terminals(r.value, h, hdefs):
+                good = isinstance(t, ast.Call) and isinstance(self.p.callee(h, t), Func) and self.p.callee(h, t).qual == PARSE_HEADER \
+                    and self.parse_header_call(t, h, hdefs)
+                if not good:
+                    def is_ph(x):
+                        return isinstance(x, ast.Call) and isinstance(self.p.callee(h, x), Func) and self.p.callee(h, x).qual == PARSE_HEADER
+
+                    inner = [x for x in ast.walk(t) if x is not t and is_ph(x)]
+                    # ... or locals bound (assigned / unpacked) from a parse_header call
+                    inner += [x for x in ast.walk(t) if isinstance(x, ast.Name) and any(
+                        any(is_ph(y) for y in ast.walk(d[1] if d[0] == 'assign' else d[2])) for d in hdefs.defs.get(x.id, []) if d[0] in ('assign', 'unpack'))]
+                    if not inner:
+                        raise UnknownIdiom('%s: returns `%s`, which is not a call of parse_header' % (h.qual, short(t)))
+                    self.records.append((False, 'the part\'s Content-Disposition parameters are exactly what parse_header returns for the header value '
+                                         '(no post-processing of the parameter values)', h, t,
+                                         'Content-Disposition: form-data; name="discount%22" comes back with an altered name / filename'))
+                    ok = False
+                else:
+                    self.records.append((True, 'the part\'s Content-Disposition parameters are exactly what parse_header returns for the decoded header value',
+                                         h, t, 'Content-Disposition: form-data; name="discount%22" comes back with an altered name / filename'))
+        if ok:
+            self.run.use(h)
+            if h.qual not in self.parsers:
+                self.parsers.append(h.qual)
+        memo[h.qual] = ok
+        return ok
+
+    def parse_header_call(self, call: ast.Call, h: Func, hdefs) -> bool:
+        """parse_header(<X>.decode([utf-8[, errors]])) with X the part's Content-Disposition header bytes."""
+        if len(call.args) != 1 or call.keywords:
+            raise UnknownIdiom('%s: arguments of `%s` not understood' % (h.qual, short(call)))
+        args = self.terminals(call.args[0], h, hdefs)
+        for a in args:
+            if not (isinstance(a, ast.Call) and isinstance(a.func, ast.Attribute) and a.func.attr == 'decode'):
+                raise UnknownIdiom('%s: parse_header is given `%s`, not a decoded header value' % (h.qual, short(a)))
+            codec = a.args[0] if a.args else next((k.value for k in a.keywords if k.arg == 'encoding'), None)
+            if codec is not None:
+                cv = self.p.fold(h.module, codec, func=h)
+                if not isinstance(cv, str):
+                    raise UnknownIdiom('%s: codec of `%s` is not a constant' % (h.qual, short(a)))
+                self.records.append((cv.lower().replace('-', '_') in [u.replace('-', '_') for u in _UTF8],
+                                     'the Content-Disposition header value is decoded as UTF-8 (RFC 7578 section 5.1: names and file names are '
+                                     'sent in the form charset, UTF-8 by default)', h, a,
+                                     'a part named "naïve" comes back with a different name (or is rejected)'))
+            for src in self.terminals(a.func.value, h, hdefs):
+                if not self.is_cd_header_read(src):
+                    raise UnknownIdiom('%s: `%s` is not recognisably the Content-Disposition header of the part' % (h.qual, short(src)))
+        return True
+
+    def is_cd_header_read(self, e) -> bool:
+        e = strip_await(e)
+        if isinstance(e, ast.Call) and isinstance(e.func, ast.Attribute) and e.func.attr == 'get' and e.args:
+            recv, k = e.func.value, e.args[0]
+        elif isinstance(e, ast.Subscript):
+            recv, k = e.value, e.slice
+        else:
+            return False
+        return attr_chain(recv) is not None and attr_chain(recv)[0] == 'self' and isinstance(k, ast.Constant) and k.value == CD_HEADER
+
+    def is_params(self, e, f: Func, defs, depth=0) -> bool:
+        """`e` is the parameter dictionary (element 1) of the parsed Content-Disposition."""
+        e = strip_await(e)
+        if depth > 6:
+            return False
+        if isinstance(e, ast.Subscript) and isinstance(e.slice, ast.Constant) and e.slice.value == 1:
+            return self.is_cd_value(e.value, f, defs, depth + 1)
+        if isinstance(e, ast.Name) and e.id not in defs.params:
+            ds = defs.defs.get(e.id, [])
+            if not ds:
+                return False
+            for d in ds:
+                if d[0] == 'unpack':
+                    if not (d[1] == 1 and len(d[3].elts) == 2 and not any(isinstance(x, ast.Starred) for x in d[3].elts)
+                            and self.is_cd_value(d[2], f, defs, depth + 1)):
+                        return False
+                elif d[0] == 'assign':
+                    if not self.is_params(d[1], f, defs, depth + 1):
+                        return False
+                else:
+                    return False
+            return True
+        return False
+
+    def param_read(self, e, f: Func, defs):
+        """(key, default expr|None) when `e` is `<params>.get(<const>[, default])` / `<params>[<const>]`, else None."""
+        e = strip_await(e)
+        if isinstance(e, ast.Call) and isinstance(e.func, ast.Attribute) and e.func.attr == 'get' and 1 <= len(e.args) <= 2 and not e.keywords \
+                and isinstance(e.args[0], ast.Constant) and isinstance(e.args[0].value, str) and self.is_params(e.func.value, f, defs):
+            return e.args[0].value, (e.args[1] if len(e.args) == 2 else None)
+        if isinstance(e, ast.Subscript) and isinstance(e.slice, ast.Constant) and isinstance(e.slice.value, str) and self.is_params(e.value, f, defs):
+            return e.slice.value, ast.Constant(value=Ellipsis)
+        return None
+
+    def is_raw(self, e) -> bool:
+        r = self.param_read(e, self.f, self.defs)
+        return r is not None and r[0] == self.key and (r[1] is None or (isinstance(r[1], ast.Constant) and r[1].value is None))
+
+    # --------------------------------------------- the tabled RFC 5987 decoding
+    def _rfc5987_shape(self, t) -> Optional[str]:
+        """None when `t` is the tabled decoding of `<key>*`; else the reason it is not."""
+        f, defs = self.f, self.defs
+        if not (isinstance(t, ast.Call) and isinstance(t.func, ast.Attribute) and t.func.attr == 'decode' and len(t.args) == 1 and not t.keywords
+                and isinstance(t.func.value, ast.Call) and len(t.func.value.args) == 1 and not t.func.value.keywords):
+            return 'not <unquote>(<raw>).decode(<charset>)'
+        uq = self.p.callee(f, t.func.value)
+        uq = uq if isinstance(uq, str) else getattr(uq, 'qual', None)
+        if uq != 'urllib.parse.unquote_to_bytes':
+            return 'the percent-decoder is %s, not urllib.parse.unquote_to_bytes' % uq
+        raw, cs = t.func.value.args[0], t.args[0]
+        if not (isinstance(raw, ast.Name) and isinstance(cs, ast.Name)):
+            return 'raw value / charset are not locals'
+        dr, dc = defs.defs.get(raw.id, []), defs.defs.get(cs.id, [])
+        if not (len(dr) == 1 and len(dc) == 1 and dr[0][0] == 'unpack' and dc[0][0] == 'unpack' and dr[0][2] is dc[0][2] and len(dr[0][3].elts) == 2):
+            return 'raw value and charset are not unpacked from one two-element value'
+        if (dc[0][1], dr[0][1]) != (0, 1):
+            return 'charset is group %d and the raw value group %d of the match (RFC 5987: charset\'language\'value)' % (dc[0][1] + 1, dr[0][1] + 1)
+        g = strip_await(dr[0][2])
+        if not (isinstance(g, ast.Call) and isinstance(g.func, ast.Attribute) and g.func.attr == 'groups' and not g.args and isinstance(g.func.value, ast.Name)):
+            return 'the two values are not <match>.groups()'
+        mname = g.func.value.id
+        m = defs.single(mname)
+        if not (isinstance(m, ast.Call) and isinstance(m.func, ast.Attribute) and m.func.attr in ('match', 'fullmatch') and len(m.args) == 1 and not m.keywords):
+            return '`%s` is not bound once to <regex>.match(<value>)' % mname
+        rq = self.p.resolve_expr(f.module, m.func.value, f)
+        rx = None
+        if rq:
+            head, _, tail = rq.rpartition('.')
+            mod = self.p.modules.get(head)
+            rx = mod.consts.get(tail) if mod is not None else None
+        if not (isinstance(rx, ast.Call) and self.p.resolve_expr(f.module, rx.func) == 're.compile' and rx.args
+                and isinstance(self.p.fold(f.module, rx.args[0]), str)):
+            return 'the matcher `%s` is not a module-level compiled regular expression' % short(m.func.value)
+        rd = self.param_read(m.args[0], f, defs)
+        if rd is None or rd[0] != self.key + '*' or not (isinstance(rd[1], ast.Constant) and isinstance(rd[1].value, str)):
+            return 'the matched text is not <params>.get(%r, <str>)' % (self.key + '*')
+        # the decoding is used only where the extended parameter matched
+        cfg = cfg_of(f, self.p)
+        self.run.use_cfg(cfg)
+        sites = [n for n in cfg.live_nodes() if n.kind == 'stmt' and any(x is t for x in n.walk())]
+        if not sites:
+            return 'store of the decoded value not found in the control-flow graph'
+
+        def none_cmp(x, ops):
+            return (isinstance(x, ast.Compare) and len(x.ops) == 1 and isinstance(x.ops[0], ops) and isinstance(x.left, ast.Name) and x.left.id == mname
+                    and isinstance(x.comparators[0], ast.Constant) and x.comparators[0].value is None)
+
+        def is_m(x):            # `m`, `m is not None`
+            return (isinstance(x, ast.Name) and x.id == mname) or none_cmp(x, (ast.IsNot, ast.NotEq))
+
+        def is_no_m(x):         # `m is None`
+            return none_cmp(x, (ast.Is, ast.Eq))
+
+        edges = []
+        for tn in cfg.live_nodes():
+            if tn.kind == 'test':
+                for (y, l) in cfg.succ[tn.id]:
+                    if l in ('T', 'F') and (implied(tn.ast, l == 'T', is_m) is True or implied(tn.ast, l == 'T', is_no_m) is False):
+                        edges.append((tn.id, y, l))
+        if not all(any(flow.dominated_by_edge(cfg, s.id, e) for e in edges) for s in sites):
+            return 'not dominated by a test that the extended parameter matched'
+        self.table_rx = self.p.fold(f.module, rx.args[0])
+        return None
+
+    # ------------------------------------------------------------ verdicts
+    def analyse(self):
+        f = self.f
+        rets = [n for n in walk_no_nested(f.node) if isinstance(n, ast.Return) and n.value is not None]
+        if not rets:
+            raise AnchorError('%s returns nothing' % f.qual)
+        terms, seen = [], set()
+        for r in rets:
+            for t in self.terminals(r.value, f, self.defs):
+                if id(t) not in seen:
+                    seen.add(id(t))
+                    terms.append(t)
+        n_raw = 0
+        rw = ('Content-Disposition: form-data; name="discount%%22"; filename="rate%%0Apct.txt" (sent literally by a non-browser encoder): '
+              'part.%s differs from the encoded %s' % (f.name, self.key))
+        for t in terms:
+            if self.is_raw(t):
+                n_raw += 1
+                self.records.append((True, 'BodyPart.%s is exactly the `%s` parameter of the parsed Content-Disposition header' % (f.name, self.key), f, t, rw))
+                continue
+            if self.extended:
+                why = self._rfc5987_shape(t)
+                what5987 = 'BodyPart.%s: the RFC 5987 extended parameter `%s*` is decoded as documented (%s)' % (f.name, self.key, _EXTENDED_DECODING)
+                rw5987 = "filename*=UTF-8''na%C3%AFve.txt comes back as something other than 'naïve.txt'"
+                if why is None:
+                    self.records.append((True, what5987, f, t, rw5987))
+                    continue
+                if why.startswith('charset is group'):
+                    self.records.append((False, what5987 + ': ' + why, f, t, rw5987))
+                    continue
+                if any(isinstance(x, ast.Call) and x is not t and self._rfc5987_shape(x) is None for x in ast.walk(t)):
+                    self.records.append((False, what5987 + ': something else is applied to the decoded value', f, t, rw5987))
+                    continue
+            reads = [x for x in ast.walk(t) if x is not t and self.param_read(x, f, self.defs) is not None]
+            own = self.param_read(t, f, self.defs)
+            if own is not None:
+                self.records.append((False, 'BodyPart.%s reports the `%s` parameter (it reads %r%s)' % (
+                    f.name, self.key, own[0], '' if own[1] is None else ' with a default'), f, t, rw))
+                continue
+            if not reads:
+                raise UnknownIdiom('%s: the value `%s` is not derived from a parameter of the parsed Content-Disposition in a way the rule reads' % (
+                    f.qual, short(t)))
+            self.records.append((False, 'BodyPart.%s is exactly the `%s` parameter of the parsed Content-Disposition header: nothing is applied to the '
+                                 'value between the parameter read and the store / return%s' % (
+                                     f.name, self.key, ' (only the tabled RFC 5987 decoding of `%s*`)' % self.key if self.extended else ''), f, t, rw))
+        if n_raw == 0 and not any(not r[0] for r in self.records):
+            raise AnchorError('%s: no plain read of the `%s` parameter' % (f.qual, self.key))
+        return tuple(self.parsers)
+
+
+def r10_exact_names(run):
+    """Each part comes back with exactly the encoded name and filename: the accessors hand out the parsed
+    Content-Disposition parameter unchanged (effective members of both BodyPart flavours)."""
+    p = run.project
+    run.assume('C13 R10: parse_header (falcon.util.mediatypes) is the parser of the Content-Disposition header (its quoted-string handling is '
+               'C13 R8 / C11); the only decoding applied to a parameter afterwards is the tabled RFC 5987 form of filename*: ' + _EXTENDED_DECODING)
+    emitted = {}
+    for tag, cq in (('WSGI', SYNC_PART), ('ASGI', ASGI_PART)):
+        cls = p.cls(cq)
+        for acc, key, extended in _PARAM_ACCESSORS:
+            g = p.lookup_method(cq, acc)
+            if g is None:
+                from .c13_helpers import property_alias
+                g = property_alias(p, cq, acc)
+            if g is None:
+                raise AnchorError('%s.%s not found' % (cq, acc))
+            run.use(g)
+            an = _ExactParam(run, g, cls, key, extended)
+            sig = (g.qual, an.analyse())
+            if sig in emitted:
+                run.ok('%s BodyPart.%s (and the Content-Disposition parser behind it) is inherited unchanged from the %s flavour' % (
+                    tag, acc, emitted[sig]), g.loc(), '%s.%s' % (cq, acc))
+                continue
+            emitted[sig] = tag
+            done = set()
+            for ok, what, fn, cons, rw in an.records:
+                k = (fn.qual, ast.dump(cons) if isinstance(cons, ast.AST) else cons, what)
+                if k in done:
+                    continue
+                done.add(k)
+                run.check(ok, '%s %s' % (tag, what), fn, cons, where=fn.loc(cons) if isinstance(cons, ast.AST) else fn.loc(), runtime_witness=rw)
+            if getattr(an, 'table_rx', None) is not None:
+                run.sample({'rule': 'R10', 'accessor': g.qual, 'extended parameter': key + '*', 'pattern': an.table_rx, 'decoding': _EXTENDED_DECODING})
+
+
 def check(run):
     run.assume('reader semantics (C14) are taken as given: read_until(d, n, consume_delimiter=True) returns at most n bytes and '
                'raises DelimiterError unless d follows; pipe_until(d, consume_delimiter=True) skips to and over d')
@@ -978,3 +1368,7 @@ def check(run):
     run.rule('R8', r8_parse_header_fast_path, 'parse_header splits on ";" only when the line has no quoted string', floor=1)
     run.rule('R5', _c14.r7_delimiter_not_split, 'header-size-capped read never splits a delimiter (shared with C14)', floor=1)
     run.rule('R6', _c14.r10_sync_delimiter_not_split, 'sync reader: a bounded read that stops refilling never hands out the head of a straddling delimiter (shared with C14)', floor=1)
+    # part contents are independent of the transport's chunking on ASGI only if a delimiter never spans three chunks of the reader's
+    # source: every chunk but the last is at least as long as the one-chunk look-ahead of the delimiter search assumes (C14 R11)
+    run.rule('R9', _c14.r11_min_chunk, 'ASGI: every normalised source chunk but the last covers the delimiter look-ahead (shared with C14 R11)', floor=3)
+    run.rule('R10', r10_exact_names, 'BodyPart.name / .filename are exactly the parsed Content-Disposition parameters (RFC 5987 filename* decoding tabled)', floor=4)
